@@ -102,8 +102,10 @@ def run_mc(cfg, tier, expect_ok):
     key = "mcalloc|%s|%s|%s|%s" % (cfg, C.spec_hash(SPEC_MODULES + ["MCAlloc_%s.cfg" % cfg]), tier,
                                   SIM[tier] if cfg == "sim" else "")
     cpath = C.cache_path("mc", key)
-    if os.path.exists(cpath):
-        return json.load(open(cpath))
+    if os.path.exists(cpath) and os.path.exists(cpath + ".cases"):
+        mc = json.load(open(cpath))
+        mc["cases_file"] = cpath + ".cases"
+        return mc
     env = {"TIER": tier}
     kw = {}
     if cfg == "sim":
@@ -124,17 +126,34 @@ def run_mc(cfg, tier, expect_ok):
             raise C.ToolError("MCAlloc_%s: the mechanism model does not refine the property model (specification "
                               "error, not a verdict on the code):\n%s" % (cfg, (json.dumps(cex[:1]) + res.out[-3000:])[:6000]))
         C.tlc_ok_or_raise(res, "MCAlloc_" + cfg)
-        mc["cases"] = res.tagged("CASE")
-        if not mc["cases"]:
+        cases = res.tagged("CASE")
+        if not cases:
             raise C.ToolError("MCAlloc_%s emitted no behaviour" % cfg)
     else:
         # the code-as-is variant: TLC must find the design-level counterexample of F5
         if not cex:
             raise C.ToolError("MCAlloc_%s: expected the F5 counterexample, TLC found none:\n%s" % (cfg, res.out[-3000:]))
-        mc["cases"] = []
+        cases = []
+    # the behaviours are kept as an ndjson file that the harness reads directly; the meta data keeps the
+    # counts, the per-kind coverage and a sample
+    kinds = {}
+    for c in cases:
+        if c["replayable"]:
+            for e in c["ops"]:
+                k = kind_of(e["op"]["op"], e["st"], e["op"].get("out", ""))
+                kinds[k] = kinds.get(k, 0) + 1
+    mc["n_cases"] = len(cases)
+    mc["kinds"] = kinds
+    mc["sample"] = cases[len(cases) // 2] if cases else None
+    tmp = cpath + ".cases.tmp%d" % os.getpid()
+    with open(tmp, "w") as f:
+        for c in cases:
+            f.write(json.dumps(c, separators=(",", ":")) + "\n")
+    os.replace(tmp, cpath + ".cases")
     tmp = cpath + ".tmp%d" % os.getpid()
     json.dump(mc, open(tmp, "w"))
     os.replace(tmp, cpath)
+    mc["cases_file"] = cpath + ".cases"
     return mc
 
 
@@ -172,24 +191,16 @@ def kind_of(op, st, outcome=""):
     return "%s:%s%s" % (op, st, ("/" + outcome) if outcome else "")
 
 
-def replay_cases(out, prop, hb, work, cases, counts, tag, kinds):
-    if not cases:
+def replay_cases(out, prop, hb, work, mc, counts, tag, kinds):
+    if not mc["n_cases"]:
         return
-    for c in cases:
-        if c["replayable"]:
-            for e in c["ops"]:
-                k = kind_of(e["op"]["op"], e["st"], e["op"].get("out", ""))
-                kinds[k] = kinds.get(k, 0) + 1
-    cpath = os.path.join(work, "cases-%s-%d.ndjson" % (tag, os.getpid()))
-    with open(cpath, "w") as f:
-        for c in cases:
-            f.write(json.dumps(c, separators=(",", ":")) + "\n")
+    for k, v in mc["kinds"].items():
+        kinds[k] = kinds.get(k, 0) + v
     mpath = os.path.join(work, "replay-%s-%d.ndjson" % (tag, os.getpid()))
-    C.run([hb, "replay", "--in", cpath, "--out", mpath], timeout=3000)
+    C.run([hb, "replay", "--in", mc["cases_file"], "--out", mpath], timeout=3000)
     lines = [json.loads(l) for l in open(mpath)]
-    os.remove(cpath)
     os.remove(mpath)
-    if not lines or lines[-1].get("done") != len(cases):
+    if not lines or lines[-1].get("done") != mc["n_cases"]:
         raise C.ToolError("alloc replay did not complete (%s)" % tag)
     fin = lines[-1]
     counts["cases"] += fin["done"] - fin["skipped"]
@@ -309,7 +320,7 @@ def check(prop, tier, seed):
     for cfg, ok, mc in mcs:
         out.states += mc["distinct"]
         out.transitions += mc["generated"]
-        out.extra["model_checking"][cfg] = {"states": mc["distinct"], "behaviours": len(mc["cases"]), "tlc_wall_s": mc["wall"],
+        out.extra["model_checking"][cfg] = {"states": mc["distinct"], "behaviours": mc["n_cases"], "tlc_wall_s": mc["wall"],
                                             "holds": ok}
         if not ok:
             out.extra.setdefault("f5_design_counterexample", {})[cfg] = f5_story(mc["cex"][0])
@@ -318,9 +329,9 @@ def check(prop, tier, seed):
     kinds = {}
     counts["_rk"] = {}
     for cfg, ok, mc in mcs:
-        replay_cases(out, prop, hb, work, mc["cases"], counts, cfg, kinds)
-        if mc["cases"]:
-            c = mc["cases"][len(mc["cases"]) // 2]
+        replay_cases(out, prop, hb, work, mc, counts, cfg, kinds)
+        if mc["sample"]:
+            c = mc["sample"]
             out.sample({"tlc_behaviour": cfg, "calls": [op_digest(e["op"]) + " -> " + e["st"] for e in c["ops"]][:8]})
 
     # 3. impl -> spec: recorded histories
@@ -417,7 +428,14 @@ def selftest():
     os.remove(trace)
     # (b)
     mc = run_mc("caps", "quick", True)
-    cases = [c for c in mc["cases"] if c["replayable"]][:200]
+    cases = []
+    with open(mc["cases_file"]) as f:
+        for ln in f:
+            c = json.loads(ln)
+            if c["replayable"]:
+                cases.append(c)
+            if len(cases) >= 200:
+                break
 
     def run_cases(cs):
         cp = os.path.join(work, "selftest-cases.ndjson")
